@@ -22,6 +22,7 @@ def world0 : World :=
     deps := fun _ => [], parent := fun _ => none, isWf := fun _ => false,
     label := fun i => { base := i, tag := none }, starting := fun _ => [], automate := fun _ => true,
     hasExec := fun _ => false, fails := fun _ => false, truth := fun _ => none,
+    running := fun _ => false, hit := fun _ => false,
     log := [], recv := fun _ => [], failed := fun _ => false }
 
 /-- rebuild a finite map as a table (the interpreter otherwise walks an ever longer chain of
@@ -42,9 +43,10 @@ def compact (w : World) : World :=
 def bit (b : Bool) : String := if b then "1" else "0"
 
 def variants : List (String × Cfg × World) :=
-  [false, true].flatMap fun a => [false, true].flatMap fun b => [false, true].map fun c =>
-    (s!"V{bit a}{bit b}{bit c}",
-     ({ cutAllOutputs := a, parentEmits := !b, automateInFinally := c } : Cfg), world0)
+  [false, true].flatMap fun a => [false, true].flatMap fun b => [false, true].flatMap fun c =>
+    [false, true].map fun d =>
+    (s!"V{bit a}{bit b}{bit c}{bit d}",
+     ({ cutAllOutputs := a, parentEmits := !b, automateInFinally := c, restoreLists := d } : Cfg), world0)
 
 def init : St := { vs := variants, obs := [], comps := [], wfs := [], fuel := 4000, n := 0 }
 
@@ -78,6 +80,10 @@ def step (s : St) (ws : List String) : St × List String :=
     match k.toNat? with
     | some k => if s.n ≠ 0 then (s, ["bad-op"]) else ({ (s.mapW fun w => { w with n := k }) with n := k }, [])
     | none => (s, ["bad-op"])
+  | "variants" :: tags =>
+    -- evaluate only the listed variants (before the world is built)
+    if s.n ≠ 0 || tags.isEmpty || tags.any (fun t => !(variants.any (·.1 = t))) then (s, ["bad-op"])
+    else ({ s with vs := s.vs.filter fun v => tags.contains v.1 }, [])
   | ["fuel", k] =>
     match k.toNat? with
     | some k => ({ s with fuel := k }, [])
@@ -127,6 +133,16 @@ def step (s : St) (ws : List String) : St × List String :=
     match nats is with
     | some is =>
       if is.any (· ≥ s.n) then (s, ["bad-op"]) else (s.mapW fun w => { w with fails := fun i => i ∈ is }, [])
+    | none => (s, ["bad-op"])
+  | "running" :: is =>
+    match nats is with
+    | some is =>
+      if is.any (· ≥ s.n) then (s, ["bad-op"]) else (s.mapW fun w => { w with running := fun i => i ∈ is }, [])
+    | none => (s, ["bad-op"])
+  | "hit" :: is =>
+    match nats is with
+    | some is =>
+      if is.any (· ≥ s.n) then (s, ["bad-op"]) else (s.mapW fun w => { w with hit := fun i => i ∈ is }, [])
     | none => (s, ["bad-op"])
   | ["truth", i, b] =>
     match i.toNat?, b.toNat? with
